@@ -646,7 +646,9 @@ Print Assumptions C06_text_example.
    every later token on a later line: each token ends at or before the next one starts, for EVERY text.
    [twf] also wants a non-empty range of every non-literal token; the one token class without it is the EMPTY
    COMMENT (a ';' directly followed by the end of the line: a comment's range covers the text after the ';'),
-   so [tord] holds exactly for the texts without one (C06_lexed_tokens_ordered_iff; C06_empty_comment_refuted). *)
+   so [tord] holds exactly for the texts without one (C06_lexed_tokens_ordered_iff; C06_empty_comment_refuted).
+   A zero-width range on a ';' is not an identifier position (C06's clause is about the lookup at identifiers), so the
+   empty comment is a limit of the HYPOTHESIS [twf] as stated in RangeEnc.v, not a defect of the code. *)
 From GoldV Require Import LexTord.
 
 Theorem C06_lexed_tokens_ordered_all : forall text,
